@@ -297,7 +297,10 @@ def main(argv=None):
     # thorough tier: the property's whole replay battery is also run on the tree as it is - bounded
     # exploration of the real code, reported separately and never counted as proved
     exploration = None
-    if tier == 'thorough' and not violations:
+    # quick tier: the same battery is the fall-back whenever the deductive part could not decide (a rewritten function, a
+    # new helper without a contract, a construct outside the subset): "undecided" stays the verdict of the proof, but a
+    # failing input found on the real code is a violation in its own right
+    if (tier == 'thorough' or undecided or faults or not obligations) and not violations:
         path, res = run_replay(pid, dict(name='exploration:replay-battery', verdict='exploration', model=None, line=None, info={}),
                                extra=dict(known_ids=[f['id'] for f in kfs]))
         exploration = dict(found=bool(res.get('found')), tried=res.get('tried'), input=res.get('input'))
